@@ -513,6 +513,13 @@ pub fn parse_date_yymmdd(input: &str) -> Result<NaiveDate, ParseError> {
         });
     }
 
+    // str::parse::<u32> would also take a sign ("+1+2+3" is not a date)
+    if !input.bytes().all(|b| b.is_ascii_digit()) {
+        return Err(ParseError::InvalidFormat {
+            message: format!("YYMMDD must contain only digits, found '{}'", input),
+        });
+    }
+
     let year = input[0..2]
         .parse::<u32>()
         .map_err(|_| ParseError::InvalidFormat {
@@ -555,6 +562,13 @@ pub fn parse_date_yyyymmdd(input: &str) -> Result<NaiveDate, ParseError> {
         });
     }
 
+    // str::parse::<u32> would also take a sign ("+1+2+3" is not a date)
+    if !input.bytes().all(|b| b.is_ascii_digit()) {
+        return Err(ParseError::InvalidFormat {
+            message: format!("YYYYMMDD must contain only digits, found '{}'", input),
+        });
+    }
+
     let year = input[0..4]
         .parse::<i32>()
         .map_err(|_| ParseError::InvalidFormat {
@@ -591,6 +605,13 @@ pub fn parse_time_hhmm(input: &str) -> Result<NaiveTime, ParseError> {
                 "Time must be in HHMM format (4 digits), found {} characters",
                 input.len()
             ),
+        });
+    }
+
+    // str::parse::<u32> would also take a sign ("+1+2+3" is not a date)
+    if !input.bytes().all(|b| b.is_ascii_digit()) {
+        return Err(ParseError::InvalidFormat {
+            message: format!("HHMM must contain only digits, found '{}'", input),
         });
     }
 
